@@ -239,12 +239,9 @@ def run_case(case, ctx):
                 )
                 break
         ctx.label("nn-ties-skipped" if skipped else "nn-no-ties")
-        if not fails and kind == remap_to and case["dst"] is None and skipped == 0 and (
-            twin == "object"
-            or kind == "nodes"
-            or (kind == "face centers" and twin != "twin-centres")
-            or (kind == "edge centers" and twin in ("twin", "twin-centres") and case.get("src_edge_seed") is None)
-        ):
+        # identity: whenever destination element j sits exactly where source element j does (the source grid itself, or a
+        # second grid of the same mesh whose numbering and centres coincide with the source's at the time of the call)
+        if not fails and kind == remap_to and skipped == 0 and P.shape == Q.shape and bool(np.all(S.angle_np(P, Q) < 1e-12)):
             ctx.ev("nn_identity")
             if not np.array_equal(got, data):
                 bad("nn_identity", "not-identity", "remapping onto the source grid's own elements changed the values")
